@@ -437,6 +437,53 @@ fn run_history(id: &str, sent: &[Value], outside: bool, mode: &str, allowed: &Va
          "allowed": if allowed.is_array() { allowed.clone() } else { json!([]) }, "bounded": allowed.is_array(), "threads": threads})
 }
 
+/// two documents on ONE server: their notifications alternate; each document's diagnostics must be those of ITS
+/// newest text (every document is judged by the same statement as a single one)
+fn run_history_pair(id: &str, a: &(Vec<Value>, Value), b: &(Vec<Value>, Value), mode: &str, threads: usize) -> Vec<Value> {
+  let docs = vec![json!({"id": "call-foo", "language": "JavaScript", "rule": {"pattern": "foo($A)"}, "message": "foo called with $A", "severity": "error"})];
+  let base = format!("/var/tmp/agv-lspws-{}", std::process::id());
+  let s = Session::start(&yaml_of(&docs), &base, if mode == "burst" { 40 } else { 0 }, threads);
+  let rels = ["pa.js", "sub/pb.js"];
+  let mk = |rel: &str, m: &Value| {
+    let text = hist_text(m["text"].as_u64().unwrap() as usize);
+    let ver = m["ver"].as_i64().unwrap();
+    let uri = s.uri(rel);
+    match m["kind"].as_str().unwrap() {
+      "open" => json!({"jsonrpc": "2.0", "method": "textDocument/didOpen", "params": {"textDocument": {"uri": uri, "languageId": "javascript", "version": ver, "text": text}}}),
+      "change" => json!({"jsonrpc": "2.0", "method": "textDocument/didChange", "params": {"textDocument": {"uri": uri, "version": ver}, "contentChanges": [{"text": text}]}}),
+      _ => json!({"jsonrpc": "2.0", "method": "textDocument/didClose", "params": {"textDocument": {"uri": uri}}}),
+    }
+  };
+  // alternate: a1 b1 a2 b2 ...
+  let mut msgs: Vec<(usize, Value)> = vec![];
+  for k in 0..a.0.len().max(b.0.len()) {
+    if k < a.0.len() { msgs.push((0, mk(rels[0], &a.0[k]))); }
+    if k < b.0.len() { msgs.push((1, mk(rels[1], &b.0[k]))); }
+  }
+  let mut quiet = true;
+  if mode == "seq" {
+    let mut done = [0usize, 0usize];
+    for (d, m) in msgs {
+      s.send_batch(vec![m]);
+      done[d] += 1;
+      quiet &= s.wait_handlers(rels[d], done[d], 8000);
+    }
+  } else {
+    s.send_batch(msgs.into_iter().map(|x| x.1).collect());
+    quiet &= s.wait_handlers(rels[0], a.0.len(), 8000);
+    quiet &= s.wait_handlers(rels[1], b.0.len(), 8000);
+  }
+  let alive = s.request("workspace/executeCommand", json!({"command": "no-such-command", "arguments": []}), 3000).is_some();
+  let mut out = vec![];
+  for (d, (sent, allowed)) in [a, b].iter().enumerate() {
+    let pubs: Vec<Value> = s.published(rels[d]).iter().map(|(_, v, x)| json!({"ver": v, "text": text_of_diags(x)})).collect();
+    out.push(json!({"kind": "hist", "id": format!("{id}/{}", ["a", "b"][d]), "sent": sent, "outside": false, "mode": mode, "pubs": pubs, "quiet": quiet, "alive": alive,
+      "allowed": if allowed.is_array() { (*allowed).clone() } else { json!([]) }, "bounded": allowed.is_array(), "threads": threads, "paired": true}));
+  }
+  s.shutdown();
+  out
+}
+
 fn random_history(rng: &mut Rng, len: usize) -> Vec<Value> {
   let mut sent = vec![];
   let mut open = false;
@@ -541,8 +588,25 @@ pub fn drive(vectors: &str, seed: u64, out: &str, thorough: bool) {
   for r in &recs {
     w.put(r);
   }
+  // ---- two documents on one server: pairs of (inside) histories of the sample above
+  let inside: Vec<&(String, Vec<Value>, bool, &str, Value, usize)> = jobs.iter().filter(|j| !j.2 && j.3 == "seq" || j.0.starts_with('r')).collect();
+  let mut pairs = vec![];
+  for k in (0..inside.len().saturating_sub(1)).step_by(2) {
+    if inside[k].2 || inside[k + 1].2 {
+      continue;
+    }
+    let mode = ["burst0", "seq", "burst"][(k / 2) % 3];
+    pairs.push((format!("pair{k}-{mode}"), (inside[k].1.clone(), inside[k].4.clone()), (inside[k + 1].1.clone(), inside[k + 1].4.clone()), mode, 1 + (k / 2) % 3));
+  }
+  let n_pairs = pairs.len();
+  let precs = cli::par_map(&pairs, 8, |_, (id, a, b, mode, threads)| run_history_pair(id, a, b, mode, *threads));
+  for rs in &precs {
+    for r in rs {
+      w.put(r);
+    }
+  }
   let _ = std::fs::remove_dir_all(&scratch);
   let _ = std::fs::remove_file(crate::lsp::hook_file());
   let n = w.finish();
-  util::summary(json!({"records": n, "fe": n_fe, "hist_model": n_model, "hist_random": jobs.len() - n_model, "histories_in_model": keys.len()}));
+  util::summary(json!({"records": n, "fe": n_fe, "hist_model": n_model, "hist_random": jobs.len() - n_model, "hist_pairs_two_documents": n_pairs, "histories_in_model": keys.len()}));
 }
